@@ -21,6 +21,7 @@ func init() {
 			"Decided: (D1) persist-after-mutate: starting from every instruction that mutates the table or a lease, every path to a successful return of the outermost API function or message handler executes the database-store notification after the mutation (directly, by a defer, or in every caller); (D2) a lease is registered once: no value that comes from the allocator or from a table lookup is passed to addLease again; " +
 			"(D3) sibling agreement: every function that changes the lease list also updates the IP index, the hostname index and the pool-offset bitset; (D4) the table is touched only under leasesLock and the database-store path reads it under the lock; (D5) static-lease insertion is reached only after the validation calls succeeded; the store callback writes through the atomic writer (C14). " +
 			"(D6) conflict removal: the function that makes room for a new lease (rmDynamicLease) can remove more than one lease per call — a lease can conflict with one existing lease by hardware address and with another by IP address — i.e. its removal site lies in a loop over the lease list or there are at least two removal sites, and every caller registers the new lease only after it succeeded; (D7) the hostname index follows a rename: when commitLease changes a lease's hostname the old name's index entry is deleted (at most guarded by 'still points at this lease') and the new name is indexed. " +
+			"(D8) pool accounting: the pool-offset set is changed only with an offset that (*ipRange).offset reported as lying inside the range — on the ok edge of that very call — so a lease outside the dynamic range (static reservations elsewhere in the subnet) neither occupies nor frees a pool address. " +
 			"Not decided: uniqueness of addresses/clients over message histories, pool exhaustion, expiry arithmetic, restart equivalence beyond 'stored after each change'.",
 		RuleText: "Mutations are SSA stores/map updates/deletes/bitset sets on the four table fields and stores to dhcpsvc.Lease fields; obligations propagate from callee to callers until a function without module callers is reached.",
 		Assumptions: []string{
@@ -148,6 +149,7 @@ func runC10(c *Ctx) {
 	a.storePath()
 	a.conflictRemoval()
 	a.hostnameIndex()
+	a.offsetsInRange()
 }
 
 // isNotifyStore: a dynamic call of the `notify` callback field with the
@@ -964,4 +966,43 @@ func (a *c10) hostnameIndex() {
 		det = append(det, p.TraceString(tr))
 	}
 	r.Check(!found, "C10-D7", "new-name-indexed", p.FnPos(fn), "a committed lease with a hostname is always entered into the hostname index under that name", "a committed lease can keep a hostname that is not in the hostname index", det...)
+}
+
+// offsetsInRange: D8.
+func (a *c10) offsetsInRange() {
+	p, r := a.P, a.R
+	n := 0
+	for _, fn := range a.fns {
+		k := 0
+		for _, call := range core.CallsTo(fn, "(*dhcpd.bitSet).set") {
+			recv := call.Arg(0)
+			if fr, _, ok := core.LoadedField(recv); !ok || fr.Field != "leasedOffsets" {
+				continue
+			}
+			n++
+			k++
+			key := fmt.Sprintf("offset-in-range:%s#%d", core.FuncKey(fn), k)
+			ex, ok := call.Arg(1).(*ssa.Extract)
+			var oc *ssa.Call
+			if ok && ex.Index == 0 {
+				oc, _ = ex.Tuple.(*ssa.Call)
+			}
+			if oc == nil || core.CalleeKey(oc.Common()) != "(*dhcpd.ipRange).offset" {
+				r.Fail("C10-D8", key, p.InstrPos(call.Instr), "the pool-offset set is changed with a value that is not the offset reported by (*ipRange).offset")
+				continue
+			}
+			guard, ng := core.CondEdges(fn, func(at core.Atom) (bool, bool) {
+				if at.Op != token.ILLEGAL {
+					return false, false
+				}
+				e, ok := at.Base.(*ssa.Extract)
+				return ok && e.Tuple == ssa.Value(oc) && e.Index == 1, true
+			})
+			off, ns := core.UnguardedSinks(fn, func(in ssa.Instruction) bool { return in == call.Instr.(ssa.Instruction) }, guard)
+			r.Check(ng > 0 && ns == 1 && len(off) == 0, "C10-D8", key, p.InstrPos(call.Instr),
+				"the pool-offset bit is changed only when the address lies inside the dynamic range",
+				"the pool-offset bit is changed although the address may lie outside the dynamic range (offset() then reports 0, the first pool address): a lease outside the pool marks or frees the first pool address", traceOf(p, off)...)
+		}
+	}
+	r.Floor("C10-D8", "pool-offset-updates", n, 2)
 }
